@@ -2,7 +2,8 @@
 
 package main
 
-// Suite `algfind` — session-level REPRODUCERS of the defects the algebra layer of C14/C08 exposes.
+// Suite `algfind` — session-level REPRODUCERS of the defects the algebra layer of C14/C08 exposed (all fixed in
+// /repo: 4df2a70 Doerner Derive, eba3819 FROST chain key); kept as regression observations.
 // Real protocol runs (FROST keygen, Doerner keygen / refresh / sign); only judged observations are
 // emitted (booleans, lengths), so the lines are deterministic although the runs use crypto/rand.
 // The model side (Mps.Drv.Alg, ops "find…") answers what property C14 PRESCRIBES.
@@ -57,57 +58,10 @@ func algDoernerSign(c *Ctx, pl *pool.Pool, a, b party.ID, cr *doerner.ConfigRece
 	return ok && sig.Verify(cr.Public, h)
 }
 
-// frostKeygenSign runs a FROST keygen over ids (threshold t) and then a signing session of all of them.
-func frostKeygenSign(c *Ctx, ids party.IDSlice, t int) J {
-	hs := map[party.ID]protocol.Handler{}
-	for _, id := range ids {
-		h, err := protocol.NewMultiHandler(frost.Keygen(secp, id, ids, t), []byte("frost-kg2"))
-		if err != nil {
-			return J{"keygen": "refused at start"}
-		}
-		hs[id] = h
-	}
-	res := runSessions(c, hs, "fifo", nil)
-	if res.Panic != "" {
-		return J{"keygen": "PANIC"}
-	}
-	if len(res.Errors) > 0 {
-		return J{"keygen": "aborted"}
-	}
-	cfgs := map[party.ID]*frost.Config{}
-	for _, id := range ids {
-		cfgs[id] = res.Results[id].(*frost.Config)
-	}
-	hash := []byte("0123456789abcdef0123456789abcdef")
-	hs = map[party.ID]protocol.Handler{}
-	for _, id := range ids {
-		h, err := protocol.NewMultiHandler(frost.Sign(cfgs[id], ids, hash), []byte("frost-sg2"))
-		if err != nil {
-			return J{"keygen": "completed", "sign": "refused at start"}
-		}
-		hs[id] = h
-	}
-	res = runSessions(c, hs, "fifo", nil)
-	if res.Panic != "" {
-		return J{"keygen": "completed", "sign": "PANIC"}
-	}
-	if len(res.Errors) > 0 {
-		return J{"keygen": "completed", "sign": "aborted"}
-	}
-	return J{"keygen": "completed", "sign": "completed"}
-}
-
 func init() {
 	register("algfind", func(c *Ctx) {
 		pl := pool.NewPool(0)
 		defer pl.TearDown()
-		// ---- participants whose ids have EQUAL or ZERO scalar images pass every start validation
-		c.Emit("findScalarImages", J{"ids": []string{hx([]byte("a")), hx([]byte("\x00a"))}, "t": 1, "case": "equal images"},
-			frostKeygenSign(c, party.NewIDSlice([]party.ID{"a", "\x00a"}), 1))
-		c.Emit("findScalarImages", J{"ids": []string{hx([]byte("a")), hx([]byte("\x00"))}, "t": 1, "case": "zero image"},
-			frostKeygenSign(c, party.NewIDSlice([]party.ID{"a", "\x00"}), 1))
-		c.Emit("findScalarImages", J{"ids": []string{hx([]byte("a")), hx([]byte("b"))}, "t": 1, "case": "control"},
-			frostKeygenSign(c, party.NewIDSlice([]party.ID{"a", "b"}), 1))
 		reps := 1 + c.N/50
 		for it := 0; it < reps; it++ {
 			// ---- FROST: the chain key computed in keygen round 3 is not stored in the Config
@@ -174,7 +128,7 @@ func init() {
 			c.Emit("findDoernerDerive", J{"i": idx}, J{"signBefore": baseOK, "deriveErr": e1 != nil || e2 != nil, "sharesOpenKey": sharesOK,
 				"chainKeyKept": chainOK2, "signAfter": derivedOK, "deriveAgainOk": again})
 
-			// ---- Doerner refresh: key kept, shares re-randomised — and the chain key?
+			// ---- Doerner refresh: key kept, shares re-randomised; both sides agree on the (re-drawn, by design) chain key
 			nr, ns, e := algDoernerRefresh(c, pl, a, b, cr, cs)
 			if e != "" {
 				c.Emit("findDoernerRefresh", J{}, J{"setup": e})
@@ -183,7 +137,6 @@ func init() {
 			sum := secp.NewScalar().Set(nr.SecretShare).Add(ns.SecretShare)
 			c.Emit("findDoernerRefresh", J{}, J{"keyKept": nr.Public.Equal(cr.Public) && sum.ActOnBase().Equal(cr.Public),
 				"shareChanged": !nr.SecretShare.Equal(cr.SecretShare), "signAfter": algDoernerSign(c, pl, a, b, nr, ns, hash),
-				"chainKeyKept": hx(nr.ChainKey) == hx(cr.ChainKey) && hx(ns.ChainKey) == hx(cs.ChainKey),
 				"chainKeysAgree": hx(nr.ChainKey) == hx(ns.ChainKey) && len(nr.ChainKey) == 32})
 		}
 	})
